@@ -233,6 +233,7 @@ package prunner
 //@   ensures  [persist] (!old(job.Canceled) ==> $persist) && (old($persist) ==> $persist)
 //@   ensures  [T] Tjobs() && Tcanceled()
 //@   ensures  [defs] r.defs == old(r.defs)
+//@   ensures  [timeCells] same("mem(time.Time)")
 //@   modifies PipelineJob.Start, PipelineJob.sched, PipelineJob.taskRunner, PipelineJob.LastError, PipelineJob.Canceled, taskctl.Scheduler.onStageChange, map(map[string][]*PipelineJob)@[r.waitListByPipeline], mem(time.Time), $persist, $clock, $wgTokens
 
 //@ func (*PipelineRunner).startJobsOnWaitList
@@ -246,7 +247,9 @@ package prunner
 //@   ensures  [persist] old($persist) ==> $persist
 //@   ensures  [T] Tjobs() && Tcanceled()
 //@   ensures  [defs] r.defs == old(r.defs)
+//@   ensures  [timeCells] same("mem(time.Time)")
 //@   modifies PipelineJob.Start, PipelineJob.sched, PipelineJob.taskRunner, PipelineJob.LastError, PipelineJob.Canceled, taskctl.Scheduler.onStageChange, map(map[string][]*PipelineJob)@[r.waitListByPipeline], mem(time.Time), $persist, $clock, $wgTokens
+//@   loop 1 invariant [timeCells] same("mem(time.Time)")
 //@   loop 1 invariant [C11.emptyNoStart] old(len(r.waitListByPipeline[pipeline])) == 0 ==> same(PipelineJob.Start) && same(PipelineJob.Canceled) && len(waitList) == 0
 //@   loop 1 invariant [ri] RI(r) && r.defs == old(r.defs) && r.waitListByPipeline == old(r.waitListByPipeline)
 //@   loop 1 invariant [current] waitList == r.waitListByPipeline[pipeline]
@@ -282,6 +285,7 @@ package prunner
 //@   ensures  [T] Tjobs() && TtaskCanceled()
 //@   ensures  [C11.noStart] old(r.isShuttingDown) ==> same(PipelineJob.Start)
 //@   ensures  [defs] r.defs == old(r.defs) && same(PipelineJob.Completed) && same("map(map[uuid.UUID]*PipelineJob)")
+//@   ensures  [timeCells] same("mem(time.Time)")
 //@   modifies PipelineJob.Start, PipelineJob.sched, PipelineJob.taskRunner, PipelineJob.LastError, PipelineJob.Canceled, PipelineJob.startTimer, jobTask.Canceled, taskctl.Scheduler.onStageChange, map(map[string][]*PipelineJob)@[r.waitListByPipeline], mem(time.Time), mem(*PipelineJob), $persist, $clock, $stopped, $cancelSpawned, $wgTokens
 //@   at go (*PipelineRunner).cancelJobInternal$1#1: ghost $cancelSpawned[job] := $cancelSpawned[job] + 1
 //@   at go (*PipelineRunner).cancelJobInternal$1#1: assert [C11.cancelTracked] $wgTokens >= old($wgTokens) + 1
@@ -401,6 +405,7 @@ package prunner
 //@   lockmode none
 //@   at call (*PipelineRunner).cancelJobInternal#1: assert [C08.failFastOnlyOnError] jt.Errored && !pipelineDef.ContinueRunningTasksAfterFailure && found && jobID == j.ID
 //@   at call (*PipelineRunner).requestPersist#1: assert [C08.taskCopy] (errIs(t.Error, context.Canceled) ==> jt.Canceled) && (!errIs(t.Error, context.Canceled) ==> jt.Errored == t.Errored && jt.Error == t.Error) && jt.ExitCode == t.ExitCode && jt.Skipped == t.Skipped
+//@   at call (*PipelineRunner).requestPersist#1: assert [C08.taskTimes] (t.Start != 0 ==> jt.Start != nil && *jt.Start == t.Start) && (t.End != 0 ==> jt.End != nil && *jt.End == t.End) && (t.Start == 0 ==> jt.Start == old(jt.Start)) && (t.End == 0 ==> jt.End == old(jt.End))
 //@   at call (*PipelineRunner).requestPersist#1: assert [C08.failFast] jt.Errored && (j.Pipeline in r.defs.Pipelines) && !r.defs.Pipelines[j.Pipeline].ContinueRunningTasksAfterFailure ==> $failFastIssued
 //@   at call (*PipelineRunner).cancelJobInternal#1: ghost $failFastIssued := true
 //@   assumes  [noPending] !$failFastIssued
